@@ -121,3 +121,59 @@ Section Tie.
     all: match goal with |- context [make_tune_ok ?a ?b ?c ?d ?e ?g] => destruct (make_tune_ok a b c d e g) eqn:E | _ => idtac end; cbn; rewrite ?app_nil_r, <- ?app_assoc; try reflexivity.
   Qed.
 End Tie.
+
+(* ---- every sequence of frames: the frames of one read episode, until one fails ---- *)
+Section Frames.
+  Variable o : hopts.
+  Variable eo : val.
+
+  (* what IoLoop does with the frames of a read: process one after the other, stop at the first error *)
+  Fixpoint gframes (self inner : val) (fs : list hframe) : val * val * val :=
+    match fs with
+    | [] => (self, inner, VC "Ok" [VC "()" []])
+    | f :: fs' =>
+        let '(self', inner', r) := gen_HandshakeState_process (ext_model o eo) 2 self inner (enc_frame f) in
+        match r with
+        | VC c _ => if (c =? "Ok")%string then gframes self' inner' fs' else (self', inner', r)
+        | _ => (self', inner', r)
+        end
+    end.
+
+  (* the effects of a run of frames, in order *)
+  Fixpoint run_effects (st : hstate) (fs : list hframe) : list val :=
+    match fs with
+    | [] => []
+    | f :: fs' =>
+        let r := hprocess o st f in
+        enc_effects o r ++ match r_err r with None => run_effects (r_state r) fs' | Some _ => [] end
+    end.
+  Fixpoint run_state (st : hstate) (fs : list hframe) : hstate :=
+    match fs with
+    | [] => st
+    | f :: fs' => let r := hprocess o st f in
+                  match r_err r with None => run_state (r_state r) fs' | Some _ => r_state r end
+    end.
+  Fixpoint run_result (st : hstate) (fs : list hframe) : val :=
+    match fs with
+    | [] => VC "Ok" [VC "()" []]
+    | f :: fs' => let r := hprocess o st f in
+                  match r_err r with None => run_result (r_state r) fs' | Some _ => enc_result r end
+    end.
+
+  (* THE MODEL IS THE SOURCE over ANY sequence of handshake frames from any state: the translated
+     process, applied frame after frame until one fails, ends in the model's state, has pushed the
+     model's methods (and sealed, and started the heartbeats) in the model's order and returns the
+     model's error *)
+  Theorem frames_source_is_model : forall fs st log,
+    gframes (enc_state eo st) (VC "effects" log) fs
+    = (enc_state eo (run_state st fs), VC "effects" (log ++ run_effects st fs), run_result st fs).
+  Proof.
+    induction fs as [|f fs IH]; intros st log; cbn [gframes run_state run_effects run_result].
+    - rewrite app_nil_r. reflexivity.
+    - rewrite (process_source_is_model o eo st f log 0).
+      destruct (r_err (hprocess o st f)) as [e|] eqn:Ee.
+      + unfold enc_result. rewrite Ee. cbn. rewrite app_nil_r. reflexivity.
+      + unfold enc_result at 1. rewrite Ee. cbn [String.eqb Ascii.eqb Bool.eqb].
+        rewrite IH, <- app_assoc. reflexivity.
+  Qed.
+End Frames.
